@@ -29,7 +29,7 @@ type tcpProxy struct {
 }
 
 func newTCPProxy(target string) *tcpProxy {
-	l, err := net.Listen("tcp", "127.0.0.1:0")
+	l, err := net.Listen("tcp", myIP+":0")
 	if err != nil {
 		panic(err)
 	}
@@ -100,7 +100,7 @@ func runRelayScenario(seed uint64, size int, t *Trace) error {
 	proxy := newTCPProxy(fmt.Sprintf("127.0.0.1:%d", tcp))
 	defer proxy.l.Close()
 	srvKey := s.E.S.PublicKey()
-	servers := map[glow.PublicKey]client.GCAServer{srvKey: {Location: "127.0.0.1", HttpPort: 1, TcpPort: proxy.port(), UdpPort: sink.port()}}
+	servers := map[glow.PublicKey]client.GCAServer{srvKey: {Location: myIP, HttpPort: 1, TcpPort: proxy.port(), UdpPort: sink.port()}}
 	origin := uint32(0)
 	if start > 500 && r.Chance(50) {
 		origin = start - uint32(r.Intn(400))
